@@ -567,6 +567,9 @@ def dispatch(argv):
     if cmd in ("C17", "C18", "C19"):
         import engines_sat
         return engines_sat.check_sat(cmd, tier)
+    if cmd == "C13":
+        import engines_sat
+        return engines_sat.check_writecap(tier)
     if cmd in ("C15", "C16"):
         import engines_sat
         return engines_sat.check_shapes(cmd, tier)
